@@ -78,6 +78,10 @@ class ConnTranslator(Translator):
                                                                             "column_type": col + ".type", "character_set": col + ".character_set"}:
                 return "(coldef self.server_charset %s)" % col, BYTES
             raise Untranslatable("column definition " + ast.unparse(n)[:80])
+        if ast.unparse(f) == "packets.make_text_resultset_row" and len(n.args) == 2 and isinstance(n.args[0], ast.Name) \
+                and c.env.get(n.args[0].id) == BYTES and isinstance(n.args[1], ast.Attribute) and n.args[1].attr == "columns":
+            # `ResultSet.rows` stands for the packets the rows encode to (see the nested generator of handle_stmt_execute)
+            return n.args[0].id, BYTES
         if isinstance(f, ast.Attribute) and isinstance(f.value, ast.Name) and f.value.id == "packets" and ("packets." + f.attr) in self.fns:
             return self.call_fn(self.fns["packets." + f.attr], n.args, n.keywords, c, binds)
         return super().call(n, c, binds, want)
@@ -206,13 +210,14 @@ class HandlerTranslator(ConnTranslator):
             c.field_aliases = dict(getattr(c, "field_aliases", {}))
             c.field_aliases[tg.id] = "stmt"
             return self.m_bind_opt("parse_execute self data", tg.id, cont(c))
-        # rs = await self.query(x.sql, x.query_attrs): the application's answer is a parameter; `none`: it raised
+        # rs = await self.query(x.sql, x.query_attrs): the application's answer to that text is a parameter (the attributes only
+        # travel along; an application whose answer depends on them is one such function per attribute set); `none`: it raised
         if isinstance(tg, ast.Name) and isinstance(value, ast.Call) and ast.unparse(value.func) == "self.query" and len(value.args) == 2 \
                 and isinstance(value.args[0], ast.Attribute) and isinstance(value.args[0].value, ast.Name) \
-                and c.env.get(value.args[0].value.id) == T_rec("ComStmtExecute") \
+                and c.env.get(value.args[0].value.id) in (T_rec("ComStmtExecute"), T_rec("ComQuery")) \
                 and ast.unparse(value.args[0]) == value.args[0].value.id + ".sql" and ast.unparse(value.args[1]) == value.args[0].value.id + ".query_attrs":
             c.env[tg.id] = T_rec("ResultSet")
-            return self.m_bind_opt("app_query %s" % value.args[0].value.id, tg.id, cont(c))
+            return self.m_bind_opt("app_query %s.sql" % value.args[0].value.id, tg.id, cont(c))
         # rows = gen_rows(): the nested generator that encodes the rows of the result (see block)
         if isinstance(tg, ast.Name) and isinstance(value, ast.Call) and isinstance(value.func, ast.Name) \
                 and value.func.id in getattr(c, "row_generators", {}) and not value.args:
@@ -327,9 +332,55 @@ class HandlerTranslator(ConnTranslator):
             c.row_generators = dict(getattr(c, "row_generators", {}))
             c.row_generators[s.name] = it.value.id
             return cont(c)
-        # if not rs: <terminating>   (ResultSet.__bool__)
-        if isinstance(s, ast.AsyncFor) and isinstance(s.iter, ast.Name) and c.env.get(s.iter.id) == GEN:
-            return self.async_for_local(s, c, cont)
+        # async for p in self.G(args): BODY   with G an async generator METHOD: exactly G's body with every `yield e` replaced by
+        # BODY[p := e] (a generator consumed by a loop without break runs in lock step with it)
+        if isinstance(s, ast.AsyncFor) and isinstance(s.iter, ast.Call) and isinstance(s.iter.func, ast.Attribute) \
+                and isinstance(s.iter.func.value, ast.Name) and s.iter.func.value.id == "self" and not s.orelse \
+                and isinstance(s.target, ast.Name) and not any(isinstance(x, (ast.Break, ast.Continue, ast.Return)) for st in s.body for x in ast.walk(st)):
+            try:
+                g = self.find("Connection." + s.iter.func.attr)
+            except Untranslatable:
+                g = None
+            if isinstance(g, ast.AsyncFunctionDef) and any(isinstance(x, ast.Yield) for x in ast.walk(g)):
+                import copy
+                params = [a.arg for a in g.args.args if a.arg != "self"]
+                if len(params) != len(s.iter.args) or s.iter.keywords or not all(isinstance(a, ast.Name) for a in s.iter.args):
+                    raise Untranslatable("generator call " + ast.unparse(s.iter))
+                rename = {p: a.id for p, a in zip(params, s.iter.args)}
+                target, body = s.target.id, s.body
+
+                class Inline(ast.NodeTransformer):
+                    def visit_Name(self, node):
+                        if node.id in rename:
+                            return ast.copy_location(ast.Name(id=rename[node.id], ctx=node.ctx), node)
+                        return node
+
+                    def visit_Expr(self, node):
+                        if isinstance(node.value, ast.Yield) and node.value.value is not None:
+                            val = self.visit(copy.deepcopy(node.value.value))
+
+                            class Sub(ast.NodeTransformer):
+                                def visit_Name(self2, n2):
+                                    return copy.deepcopy(val) if n2.id == target else n2
+                            return [Sub().visit(copy.deepcopy(b)) for b in body]
+                        return self.generic_visit(node)
+                inl = [Inline().visit(copy.deepcopy(st)) for st in g.body
+                       if not (isinstance(st, ast.Expr) and isinstance(st.value, ast.Constant))]
+                flat = []
+                for x in inl:
+                    flat.extend(x if isinstance(x, list) else [x])
+                for x in flat:
+                    ast.fix_missing_locations(x)
+                    for y in ast.walk(x):
+                        if isinstance(y, (ast.Yield, ast.YieldFrom)):
+                            raise Untranslatable("yield in an expression position in " + s.iter.func.attr)
+                return self.block(flat + list(rest), c, k)
+        if isinstance(s, ast.AsyncFor):
+            it0 = strip_iter(s.iter)
+            if isinstance(it0, ast.Name) and c.env.get(it0.id) == GEN:
+                return self.async_for_local(s, c, cont, it0.id)
+            if isinstance(it0, ast.Attribute) and it0.attr == "rows" and isinstance(it0.value, ast.Name) and c.env.get(it0.value.id) == T_rec("ResultSet"):
+                return self.async_for_local(s, c, cont, "%s.rows" % it0.value.id)
         if isinstance(s, ast.AsyncFor):
             return self.async_for(s, c, cont)
         # for packet in <list of packets>: await self.stream.write(packet, drain=…)
@@ -421,11 +472,11 @@ class HandlerTranslator(ConnTranslator):
                 + ind("match %s with\n| .error e => .error e\n| .ok (Mimic.Py.Step.ret %s) => %s\n| .ok (Mimic.Py.Step.next _) => %s\n| .ok (Mimic.Py.Step.brk %s) =>\n%s"
                       % (loop, "a" if has_ret else "_", ret_arm, self.m_fail(), opat, ind(cont(c3)))))
 
-    def async_for_local(self, s, c, cont):
-        """`async for x in g: body` over a generator held in a local variable that is not used afterwards"""
+    def async_for_local(self, s, c, cont, g):
+        """`async for x in g: body` over a generator held in a local variable / a result's row source, not used afterwards"""
         if s.orelse or not isinstance(s.target, ast.Name):
             raise Untranslatable("async for … else / target")
-        g, x = s.iter.id, s.target.id
+        x = s.target.id
         names = [nm for nm in self.assigned([s], c) if nm in c.env and nm not in (x, g)]
         if "self" not in names:
             names.append("self")
@@ -446,7 +497,8 @@ class HandlerTranslator(ConnTranslator):
         item = self.lift(c, "item", [x, spat], body, "%s → %s → Except %s (Step %s %s)" % (lean_type(GEN[1]), sty, rett, sty, rett), bound)
         err = self.lift(c, "err", [spat], "self", "%s → %s" % (sty, rett), bound)
         c3 = c.copy()
-        c3.env.pop(g, None)      # the generator object is consumed by the loop
+        if "." not in g:
+            c3.env.pop(g, None)      # the generator object is consumed by the loop
         opat = self.state(names, c3, False)
         has_ret = any(isinstance(n, ast.Return) for st in s.body for n in ast.walk(st))
         loop = "Mimic.Py.Gen.iterE (σ := %s) (ρ := %s) (fun _ st => st) %s %s %s.rows %s.boom %s" % (sty, rett, err, item, g, g, self.state(names, c, False))
@@ -522,6 +574,7 @@ def translate_handlers():
         "ComStmtExecute": [("sql", STR, None), ("stmt", T_rec("PreparedStatement"), None), ("use_cursor", BOOL, None)],
         # a result set as the handler uses it: columns are opaque identifiers, `rows` the packets its rows encode to
         "ResultSet": [("columns", T_list(NAT), None), ("rows", GEN, None)],
+        "ComQuery": dataclass_fields(P.ComQuery, {"query_attrs": T_dict(T_opt(STR), VAL)}),
         "ComStmtSendLongData": dataclass_fields(P.ComStmtSendLongData),
         "ComStmtFetch": dataclass_fields(P.ComStmtFetch),
         "ComStmtReset": dataclass_fields(P.ComStmtReset),
@@ -534,7 +587,7 @@ def translate_handlers():
     PC = "Mimic.Extracted.ParsersCode."
     out = ["-- GENERATED by harness/extract.py (harness/pytrans3.py) from /repo/mysql_mimic/connection.py — do not edit",
            "import Mimic.Py", "import Mimic.Extracted.PacketsCode", "import Mimic.Extracted.ParsersCode", "namespace Mimic.Extracted.HandlersCode",
-           "open Mimic.Py", "open Mimic.Extracted.ParsersCode (ComStmtSendLongData ComStmtFetch ComStmtReset ComStmtClose)", "",
+           "open Mimic.Py", "open Mimic.Extracted.ParsersCode (ComStmtSendLongData ComStmtFetch ComStmtReset ComStmtClose ComQuery)", "",
            "variable {S : Type} [DecidableEq S]", "",
            "/-- what a handler does to the outside, in the order it does it -/",
            "inductive Ev\n  | write (pkt : Bytes) (drain : Bool)\n  | drain\n  | session_reset\nderiving DecidableEq, Repr\n"]
@@ -549,7 +602,7 @@ def translate_handlers():
     pure.flags = {"Capabilities", "ServerStatus"}
     pure.fns.update(lib_fns())
     pure.extra_params = [("count_params", "S → Nat"), ("param_coldef", "Nat → Bytes"), ("coldef", "Nat → Nat → Bytes"),
-                         ("parse_execute", "Connection S → Bytes → Option (ComStmtExecute S)"), ("app_query", "ComStmtExecute S → Option (ResultSet S)")]
+                         ("parse_execute", "Connection S → Bytes → Option (ComStmtExecute S)"), ("app_query", "S → Option (ResultSet S)")]
     from mysql_mimic import results as R
     if "def __bool__(self) -> bool:\n        return bool(self.columns)" not in inspect.getsource(R.ResultSet):
         raise Untranslatable("ResultSet.__bool__ is no longer bool(self.columns)")
@@ -587,13 +640,19 @@ def translate_handlers():
         fn = py_sig(P, nm, PC + nm + " (S := S)")
         fn.partial = True
         pure.fns["packets." + nm] = fn
+    fn = py_sig(P, "parse_com_query", PC + "parse_com_query")
+    fn.partial, fn.env = True, True
+    pure.fns["packets.parse_com_query"] = fn
+    pure.fns["packets.make_column_count"] = py_sig(P, "make_column_count", PC + "make_column_count")
     out.append(pure.generator_as_list("Connection.com_stmt_prepare_response", "com_stmt_prepare_response", conn))
-    for nm, ln in (("handle_stmt_prepare", "handle_stmt_prepare"), ("handle_stmt_execute", "handle_stmt_execute"), ("handle_stmt_fetch", "handle_stmt_fetch"), ("handle_stmt_reset", "handle_stmt_reset"), ("handle_stmt_close", "handle_stmt_close"),
+    for nm, ln in (("handle_stmt_prepare", "handle_stmt_prepare"), ("handle_stmt_execute", "handle_stmt_execute"), ("handle_query", "handle_query"), ("handle_ping", "handle_ping"),
+                   ("handle_reset_connection", "handle_reset_connection"), ("handle_debug", "handle_debug"), ("handle_stmt_fetch", "handle_stmt_fetch"), ("handle_stmt_reset", "handle_stmt_reset"), ("handle_stmt_close", "handle_stmt_close"),
                    ("handle_stmt_send_long_data", "handle_stmt_send_long_data")):
         out.append(h.handler("Connection." + nm, ln))
     out.append("def translated : List String := [%s]" % ", ".join('"%s"' % n for n in (
         "Connection.ok", "Connection.eof", "Connection.deprecate_eof", "Connection.ok_or_eof", "Connection.get_stmt",
-        "Connection.com_stmt_prepare_response", "Connection.handle_stmt_prepare", "Connection.handle_stmt_execute", "Connection.handle_stmt_fetch", "Connection.handle_stmt_reset", "Connection.handle_stmt_close", "Connection.handle_stmt_send_long_data")))
+        "Connection.com_stmt_prepare_response", "Connection.handle_stmt_prepare", "Connection.handle_stmt_execute", "Connection.handle_query", "Connection.text_resultset", "Connection.handle_ping",
+        "Connection.handle_reset_connection", "Connection.handle_debug", "Connection.handle_stmt_fetch", "Connection.handle_stmt_reset", "Connection.handle_stmt_close", "Connection.handle_stmt_send_long_data")))
     out.append("end Mimic.Extracted.HandlersCode")
     return "\n".join(out) + "\n"
 
